@@ -15,8 +15,10 @@ COMMON_NOTE = ("Trusted: Lean 4.33 kernel + axioms propext/Classical.choice/Quot
 # property -> (claimed?, design_ref, technique, text, extra note)
 CLAIMS = {
     "C03": dict(
-        technique="Lean 4 theorems about the time-grid specification (Atomica.Grid) + correspondence of ProjectSettings.tvec against it (mode A)",
-        text="Proof: grid_exact/grid_length/grid_last_ge/grid_last_first/grid_prefix are proved for all start/end/dt over exact rationals; the implementation's "
+        technique="Lean 4 refinement of the engine model to the documented conversion rules + theorems about the time-grid specification and ProjectSettings as a state machine; correspondence: step-level trace refinement (mode B), documented-conversion and aggregation oracles, grid and settings-history comparison (mode A)",
+        text="Proof: (conversion) the engine model's cached fraction equals the documented rule written separately (Spec.fracRate p*dt/T, Spec.fracDuration dt/(d*T), Spec.amountNumber N*dt/T shared in proportion to source sizes; "
+             "a source emits exactly N*dt/T), flows are stock x fraction when the fractions of a compartment sum to <= 1 and stock x fraction / sum otherwise (flow_probability/duration/number, flow_normalised), for every net and state; "
+             "(grid) grid_exact/grid_length/grid_last_ge/grid_last_first/grid_prefix and the settings state machine (update_end_snapped, update_end_first) are proved for all start/end/dt over exact rationals; the implementation's "
              "time vector is compared entry-wise with the model on a table of start/end pairs x step sizes (incl. non-representable and non-dividing) "
              "plus a seeded random stream. The unit-conversion half of C03 is decided by the engine correspondence (mode B) and the documented-conversion oracle.",
         note="float rounding of start+k*dt vs numpy.linspace is measured (1e-9), not proved.",
